@@ -9,6 +9,12 @@ Property on the real code, for every loop accepted WITHOUT force:
  (ii) the real OpenMP output (schedule(runtime), requested through the transformations' public omp_schedule option)
       is compiled with gfortran -fopenmp and run under OMP_NUM_THREADS in {1,2,3,8} x OMP_SCHEDULE in
       {static, "dynamic,1", guided}, several repetitions; every shared variable is compared with the serial run.
+Static side: on the pair fragment (every array subscript a literal or loopvar+-c) the real accept/refuse verdict of
+ParallelLoopTrans.validate (no force) must equal `C09.validateModel` = scalar rule + the pair loop over ALL ordered pairs
+(write, other access of the same array) of `_array_access_parallelisable` (theorems C09_pair_loop_complete,
+C09_pairs_indep, C09_validate_pairs_indep).  A systematic statement-order family (`order_family`) puts the other access
+of every pair before/after the write, behind a scalar temporary, in an if-branch, in the other branch of the same IfBlock,
+in an inner loop, and next to a second write of the same array, in EVERY order of the statements.
 A difference is a failing input; it is a known finding only if the clause lists agree with the model and the model
 attributes it to a listed class (hypothesis of C09_partial violated in the listed way)."""
 import glob
@@ -61,7 +67,11 @@ def shared_mask(case, private_vars):
     return sorted(keep)
 
 
-def gfortran_compare(case, real, reps):
+THREADS_THOROUGH = ["1", "2", "3", "4", "5", "8"]
+SCHEDS_THOROUGH = ["static", "static,1", "static,2", "dynamic,1", "dynamic,2", "guided", "guided,2"]
+
+
+def gfortran_compare(case, real, reps, wide=False):
     """-> dict(status, diffs=[{env, observed-or-error}], runs, serial)"""
     st, ser = R.serial_run(case.source())
     if st == "compile-error":
@@ -72,7 +82,9 @@ def gfortran_compare(case, real, reps):
     keep = shared_mask(case, privs)
     want = [ser[i] for i in keep]
     diffs, runs = [], 0
-    for env, st2, vals in R.omp_runs(real["text"], reps):
+    runs_iter = (R.omp_runs(real["text"], reps, THREADS_THOROUGH, SCHEDS_THOROUGH) if wide
+                 else R.omp_runs(real["text"], reps))
+    for env, st2, vals in runs_iter:
         if st2 == "compile-error":
             return {"status": "omp-compile-error", "diffs": [{"env": None, "error": str(vals)[-600:]}], "runs": 0, "serial": ser}
         runs += 1
@@ -107,8 +119,9 @@ def classify(case, real, model, clauses_agree, findings):
 
 
 class Runner:
-    def __init__(self, reps):
+    def __init__(self, reps, wide=False):
         self.reps = reps
+        self.wide = wide        # thorough tier: more thread counts x schedule kinds/chunks per accepted loop
 
     def real_part(self, case, mode, user_opts=None):
         src = case.source()
@@ -135,7 +148,9 @@ class Runner:
             (case, mode), (real, _) = cases_modes[k], pre[k]
             if real["status"] == "accepted" and gfortran:
                 # the systematic family is decided exhaustively by the model; one gfortran run per configuration
-                return gfortran_compare(case, real, 1 if case.tag.startswith("family:") and self.reps <= 2 else self.reps)
+                fam = case.tag.startswith("family:")
+                return gfortran_compare(case, real, 1 if fam and self.reps <= 2 else (2 if fam and self.wide else self.reps),
+                                        wide=self.wide and not fam)
             return None
         with ThreadPoolExecutor(max_workers=8) as ex:
             gfs = list(ex.map(gf, range(len(cases_modes))))
@@ -328,7 +343,10 @@ def corpus_cases():
 
 def run(chk):
     thorough = chk.tier == "thorough"
-    chk.cov["rule"] = ("first a systematic family of 2-deep nests over a rank-2 array with the OUTER loop parallelised "
+    chk.cov["rule"] = ("first the statement-order family (rank-1 bodies of 1-3 statements, every permutation: the other access of a "
+                       "(write, other) pair direct / via a scalar temporary / in an if-branch / in the other branch of the same if / "
+                       "in an inner loop / next to a second write, distance 0,+-1 (thorough +-2) in the parallel variable), "
+                       "then a systematic family of 2-deep nests over a rank-2 array with the OUTER loop parallelised "
                        "(write/read and write/write pairs at distance 0,+-1,+-2 in the parallel variable x offsets 0,+-1 "
                        "in the inner variable x both index orders), then the corpus, then generated Fortran loops (45% targeted shapes: unconditional/conditional/guarded temporaries, "
                        "if/else temporaries, reductions, read-then-write, written-once scalars, nested and zero-trip "
@@ -344,7 +362,10 @@ def run(chk):
         "every store (C09_static); the driver reports both and the harness cross-checks static => per-input",
         "Fortran DO variables inside a parallel construct are private (OpenMP rule) whether or not listed",
         "schedule(runtime) is requested through the omp_schedule option so that OMP_SCHEDULE selects the schedule",
-        "IterIndep (C08's guarantee) is a hypothesis of C09_partial; the check evaluates it per input with the driver",
+        "IterIndep is a hypothesis of C09_partial; on the pair fragment it FOLLOWS from the model of validate "
+        "(C09_validate_pairs_indep: pair loop over all ordered pairs + privatised scalars) and that model is compared with the "
+        "real accept/refuse verdict on every in-fragment case; outside the fragment (2*i, i/2, mod, b(i) subscripts, symbolic "
+        "coefficients — C08's domain) the check evaluates IterIndep per input with the driver",
         "gfortran runs with -fcheck=bounds; a serial run that traps is skipped",
         "'accepted without a force option' is judged from the options the USER wrote (history's opts0): a transformation "
         "that writes force=True into the caller's dict does not make later acceptances 'forced'; every call is followed by a "
@@ -359,7 +380,7 @@ def run(chk):
     stats = {"status": {}, "tags": {}, "trips": {}, "hyp": {}, "schedules": 0, "gf_runs": 0, "gf_skipped": 0,
              "violations": 0, "known_class": {}, "known_class_gfortran": {}, "history_cases": 0, "histories": [], "static": {},
              "options_mutations": 0, "validate_tie": {}, "pairs": {}}
-    runner = Runner(reps=(6 if thorough else 2))
+    runner = Runner(reps=(3 if thorough else 2), wide=thorough)
     gen = R.Gen(chk.rng)
     n = 320 if thorough else 50
     if os.environ.get("VERIF_C09_CASES"):          # self-test aid: fewer random cases (the corpus always runs)
